@@ -239,3 +239,12 @@ def t_spl_transfers(world):
 _t_c01f = tasks
 def tasks(tier):
     return _t_c01f(tier) + [('spl_transfers', t_spl_transfers)]
+
+
+# ---------------------------------------------------------------- shared with C07.c: the write-off itself. handle_bankruptcy removes the WHOLE bad debt from the loans, so the depositors' claim must fall
+# by at least the socialised part - `socialize_loss` must never take less from the depositors than the loss (seed C01-5 spread `loss / shares` truncated per share:
+# on a very large bank nothing at all is taken, while the debt is still written off)
+_t_c01g = tasks
+def tasks(tier):
+    import specs.C07 as C07
+    return _t_c01g(tier) + [('socialize_loss', renamed(C07.t_socialize, 'C07.c', 'C01.g'))]
